@@ -8,6 +8,7 @@ package main
 import (
 	"context"
 	"encoding/hex"
+	"encoding/json"
 	"errors"
 	"flag"
 	"fmt"
@@ -17,6 +18,7 @@ import (
 	"os"
 	"path/filepath"
 	"runtime"
+	"runtime/metrics"
 	"sort"
 	"strings"
 	"time"
@@ -444,7 +446,6 @@ type Case struct {
 	TcapAft  int         `json:"tcap_after"`
 	TblWf    bool        `json:"tbl_wf"`
 	Alloc    uint64      `json:"alloc"`
-	HeapSys  uint64      `json:"heapsys_delta"`
 	Log      []ioRec     `json:"log"`
 	Argc     int         `json:"argc"`
 	ArgLens  []int       `json:"arglens"`
@@ -495,6 +496,15 @@ func classify(err error) result {
 
 var out *c.Out
 
+// allocBytes is the cumulative number of heap bytes allocated (the quantity of MemStats.TotalAlloc), read through
+// runtime/metrics, which does not stop the world.
+var allocSample = []metrics.Sample{{Name: "/gc/heap/allocs:bytes"}}
+
+func allocBytes() uint64 {
+	metrics.Read(allocSample)
+	return allocSample[0].Value.Uint64()
+}
+
 // call performs one recorded call: fill memory, place data, snapshot, call, diff.
 func (w *world) call(ctx context.Context, tag, fn string, a []uint64, place func(p *placer)) *Case {
 	cs := &Case{Fn: fn, Args: a, Eng: w.e.name, Ms: w.ms, World: w.id, Seq: w.seq, Tag: tag, Argc: len(args)}
@@ -531,15 +541,10 @@ func (w *world) call(ctx context.Context, tag, fn string, a []uint64, place func
 		out.Flush()
 		os.Exit(3)
 	})
-	var m0, m1 runtime.MemStats
-	runtime.ReadMemStats(&m0)
+	a0 := allocBytes()
 	res, err := f.Call(ctx, a...)
-	runtime.ReadMemStats(&m1)
+	cs.Alloc = allocBytes() - a0
 	wd.Stop()
-	cs.Alloc = m1.TotalAlloc - m0.TotalAlloc
-	if m1.HeapSys > m0.HeapSys {
-		cs.HeapSys = m1.HeapSys - m0.HeapSys
-	}
 	if err != nil {
 		cs.Res = classify(err)
 		if cs.Res.Kind == "exit" {
@@ -883,8 +888,14 @@ func main() {
 	compilerEvery := flag.Int("compiler-every", 8, "every k-th world runs on the compiler engine (0: never)")
 	only := flag.String("only", "", "restrict to one function")
 	f15to := flag.Uint64("f15-to", 1<<22, "target descriptor of the fd_renumber allocation probe (0: skip)")
+	repro := flag.Bool("repro", false, "replay the open findings with the public API only (default module configuration, no wrappers) and print what happens")
+	corpus := flag.String("corpus", "", "JSON file of fixed regression calls, replayed first")
 	flag.Parse()
 	ctx := context.Background()
+	if *repro {
+		reproduce(ctx)
+		return
+	}
 	out = c.NewOut()
 	defer out.Flush()
 	var err error
@@ -893,7 +904,13 @@ func main() {
 		panic(err)
 	}
 	defer os.RemoveAll(baseDir)
-	rng := c.NewRng(*seed)
+	// common.NewRng(k) and NewRng(k+1) are the same splitmix stream shifted by one step, and streams that differ by a
+	// small shift re-synchronise as soon as the consumers draw different amounts: scramble the seed first.
+	mix := *seed + 0x632BE59BD9B4E019
+	mix = (mix ^ (mix >> 30)) * 0xBF58476D1CE4E5B9
+	mix = (mix ^ (mix >> 27)) * 0x94D049BB133111EB
+	mix ^= mix >> 31
+	rng := c.NewRng(mix)
 	engs := map[string]*engine{}
 	for _, nm := range []string{"interp", "compiler"} {
 		if nm == "compiler" && *compilerEvery == 0 {
@@ -925,6 +942,42 @@ func main() {
 	}
 	out.Emit(map[string]any{"sigs": sigs})
 
+	// fixed regression calls (corpus/C15): each in a fresh one-page world with descriptor 4 = a.txt and 5 = dir
+	if *corpus != "" && *only == "" {
+		raw, err := os.ReadFile(*corpus)
+		var fixed []struct {
+			Fn   string   `json:"fn"`
+			Args []uint64 `json:"args"`
+			Why  string   `json:"why"`
+		}
+		if err == nil {
+			err = json.Unmarshal(raw, &fixed)
+		}
+		if err != nil {
+			out.Emit(map[string]any{"fatal": "corpus: " + err.Error()})
+			return
+		}
+		for _, fx := range fixed {
+			if len(fx.Args) != len(specs[fx.Fn]) {
+				out.Emit(map[string]any{"fatal": "corpus: bad arity for " + fx.Fn})
+				return
+			}
+			for _, eng := range []*engine{e0, engs["compiler"]} {
+				if eng == nil {
+					continue
+				}
+				w, err := newWorld(ctx, eng, 1, false)
+				if err != nil {
+					continue
+				}
+				g := &gen{rng: rng, w: w}
+				w.call(ctx, "prelude", "path_open", []uint64{3, 1, aPaths, 5, 0, 0x42, 0, 0, aOut}, g.placeAll)
+				w.call(ctx, "prelude", "path_open", []uint64{3, 1, aPaths + 32, 3, 2, 0x42, 0, 0, aOut}, g.placeAll)
+				w.call(ctx, "fixed", fx.Fn, fx.Args, g.placeAll)
+				w.close(ctx)
+			}
+		}
+	}
 	// job list: per function, modes 0 (valid), 1 (one boundary parameter, swept), 2 (random mix)
 	type job struct {
 		fn          string
@@ -1012,4 +1065,69 @@ func main() {
 			mod.Close(ctx)
 		}
 	}
+}
+
+// reproduce replays the open findings through the public API only: default ModuleConfig (stdin/stdout/stderr unset),
+// no logging wrappers, no overlay accessors.
+func reproduce(ctx context.Context) {
+	r := wazero.NewRuntimeWithConfig(ctx, wazero.NewRuntimeConfigInterpreter())
+	defer r.Close(ctx)
+	cm, err := wasi.NewBuilder(r).Compile(ctx)
+	if err != nil {
+		panic(err)
+	}
+	defs := cm.ExportedFunctions()
+	var names []string
+	for n := range defs {
+		names = append(names, n)
+	}
+	sort.Strings(names)
+	if _, err := r.InstantiateModule(ctx, cm, wazero.NewModuleConfig().WithName(wasi.ModuleName)); err != nil {
+		panic(err)
+	}
+	dir, _ := os.MkdirTemp("", "c15-repro-")
+	defer os.RemoveAll(dir)
+	os.WriteFile(filepath.Join(dir, "a.txt"), []byte("hello"), 0o644)
+	first := func(err error) string {
+		if err == nil {
+			return "<nil>"
+		}
+		s := err.Error()
+		if i := strings.Index(s, "\n"); i > 0 {
+			s = s[:i]
+		}
+		return s
+	}
+	mod, err := r.InstantiateModule(ctx, mustCompile(ctx, r, proxyModule(names, defs, 1, true)),
+		wazero.NewModuleConfig().WithName("").WithFSConfig(wazero.NewFSConfig().WithDirMount(dir, "/")))
+	if err != nil {
+		panic(err)
+	}
+	for fd := uint64(0); fd < 3; fd++ {
+		res, err := mod.ExportedFunction("fd_filestat_set_times").Call(ctx, fd, 0, 0, 0)
+		fmt.Printf("fd_filestat_set_times(fd=%d, 0, 0, 0) on the default stdio: results=%v err=%s\n", fd, res, first(err))
+	}
+	mod.Memory().Write(1024, []byte("a.txt"))
+	res, err := mod.ExportedFunction("path_open").Call(ctx, 3, 1, 1024, 5, 0, 0x42, 0, 0, 2048)
+	fmt.Printf("path_open(a.txt): results=%v err=%s\n", res, first(err))
+	var m0, m1 runtime.MemStats
+	runtime.GC()
+	runtime.ReadMemStats(&m0)
+	res, err = mod.ExportedFunction("fd_renumber").Call(ctx, 4, 1<<22)
+	runtime.ReadMemStats(&m1)
+	fmt.Printf("fd_renumber(4, 2^22) with 64 KiB of guest memory: results=%v err=%s allocated=%d bytes\n", res, first(err), m1.TotalAlloc-m0.TotalAlloc)
+	nomem, err := r.InstantiateModule(ctx, mustCompile(ctx, r, proxyModule(names, defs, 1, false)), wazero.NewModuleConfig().WithName(""))
+	if err != nil {
+		panic(err)
+	}
+	res, err = nomem.ExportedFunction("args_sizes_get").Call(ctx, 0, 0)
+	fmt.Printf("args_sizes_get(0, 0) from a guest without memory: results=%v err=%s\n", res, first(err))
+}
+
+func mustCompile(ctx context.Context, r wazero.Runtime, b []byte) wazero.CompiledModule {
+	cm, err := r.CompileModule(ctx, b)
+	if err != nil {
+		panic(err)
+	}
+	return cm
 }
